@@ -1,6 +1,6 @@
 (** Invariants of the store under downloadBlob / PullModel (model: Pull/Download.v), for every environment. *)
 From Coq Require Import List NArith ZArith Bool Lia.
-From V Require Import Common.Bytes Pull.Challenge Pull.Download.
+From V Require Import Common.Bytes Pull.Challenge Pull.ChallengeProofs Pull.Download.
 Import ListNotations.
 Open Scope Z_scope.
 
@@ -269,3 +269,17 @@ Section Inv.
       exact (proj1 (proj2 (pull_spec _ _ _ _ _ _ Hp Hok Hns))).
   Qed.
 End Inv.
+
+(** no sequence of responses makes makeRequestWithRetry (with the guarded getValue) panic *)
+Lemma mrwr_no_panic closure ac fuel : forall tok rs, fst (fst (fst (mrwr true closure ac fuel tok rs))) <> RPanic.
+Proof.
+  induction fuel as [|f IH]; intros tok rs; cbn [mrwr]; [cbn; discriminate|].
+  destruct (do_request closure 0 rs) as [[r|] rest]; [|cbn; discriminate].
+  destruct (h_status r =? 401).
+  - destruct (parse_challenge_gen true (h_auth r)) as [c|] eqn:E.
+    + destruct (get_token ac c (h_tokreq r)) as [[t|] ct]; [|cbn; discriminate].
+      specialize (IH t rest). destruct (mrwr true closure ac f t rest) as [[[o tk] rs'] c']. exact IH.
+    + exfalso. exact (parse_challenge_total _ E).
+  - destruct (h_status r =? 404); [cbn; discriminate|].
+    destruct (400 <=? h_status r); cbn; discriminate.
+Qed.
